@@ -35,11 +35,16 @@ package object
 //@ callpre[C03.cycle.guard] Compare: ls.compareActive && !old(ls.compareActive)
 //@ ensures[C03.cycle.restore] ls.compareActive == old(ls.compareActive)
 
+// (also C08: Interface() is the conversion of a script value for an interface-typed Go position. The guard is the
+// receiver's own in-progress flag - set for exactly the duration of this activation - so a container is answered as "nil,
+// cyclic" only when it is reached through its own contents, never because it was converted earlier in the same
+// call: seed C08m tracked a path set and never removed maps from it, so the second occurrence of a shared, acyclic map
+// arrived in Go as nil.)
 //@ func (*List).Interface
-//@ props C03
+//@ props C03 C08
 //@ requires ls != nil
-//@ callpre[C03.cycle.guard] Interface: ls.convertActive && !old(ls.convertActive)
-//@ ensures[C03.cycle.restore] ls.convertActive == old(ls.convertActive)
+//@ callpre[C03,C08.cycle.guard] Interface: ls.convertActive && !old(ls.convertActive)
+//@ ensures[C03,C08.cycle.restore] ls.convertActive == old(ls.convertActive)
 
 //@ func (*List).MarshalJSON
 //@ props C03
@@ -60,11 +65,16 @@ package object
 //@ invariant 1: m.compareActive && forallA(k, string, seen(k) ==> haskey(other.(*Map).items, k))
 //@ ensures[C15.map.eq.keys] typeof(other) == *Map && !old(m.compareActive) && result == True ==> forallA(k, string, haskey(m.items, k) ==> haskey(other.(*Map).items, k))
 
+// (also C08: Interface() is the conversion of a script value for an interface-typed Go position. The guard is the
+// receiver's own in-progress flag - set for exactly the duration of this activation - so a container is answered as "nil,
+// cyclic" only when it is reached through its own contents, never because it was converted earlier in the same
+// call: seed C08m tracked a path set and never removed maps from it, so the second occurrence of a shared, acyclic map
+// arrived in Go as nil.)
 //@ func (*Map).Interface
-//@ props C03
+//@ props C03 C08
 //@ requires m != nil
-//@ callpre[C03.cycle.guard] Interface: m.convertActive && !old(m.convertActive)
-//@ ensures[C03.cycle.restore] m.convertActive == old(m.convertActive)
+//@ callpre[C03,C08.cycle.guard] Interface: m.convertActive && !old(m.convertActive)
+//@ ensures[C03,C08.cycle.restore] m.convertActive == old(m.convertActive)
 
 //@ func (*Map).MarshalJSON
 //@ props C03
